@@ -103,6 +103,10 @@ KINDS = ['leafP', 'derivedP', 'leafE', 'derivedE', 'prodE', 'consLeaf', 'consDer
          'classCons']
 
 
+MIXED_KINDS = ['mixedP', 'mixedPrev', 'mixedE', 'mixedErev', 'mixedProd', 'mixedProdRev', 'mixedGrad', 'mixedCons',
+               'mixedConsRev', 'mixedLmi', 'mixedLmiLate']
+
+
 def make_objects(env, pep):
     """a small model and one object of each kind; returns dict kind -> (object, [accessors])"""
     from PEPit import Point, Expression
@@ -198,6 +202,38 @@ def prog_access(env, case):
         r = pep.solve(wrapper=backend, verbose=0)
         pep2 = PEP()
         objs, model = make_objects(env, pep2)
+    elif moment in ('extended-after-solve', 'extended-then-failed'):
+        # a successful solve, then the model is extended by new leaves (one more oracle call, a new point, a new variable):
+        # objects that mix leaves valued by that solve with the new, unvalued ones have no value - whatever the order of the
+        # terms - and keep raising ValueError, also after a re-solve that fails
+        from PEPit import Point, Expression
+        from PEPit.psd_matrix import PSDMatrix
+        complete(pep, model)
+        r = pep.solve(wrapper=backend, verbose=0)
+        f, x0, x1, f0, fs = model['f'], model['x0'], model['x1'], model['f0'], model['fs']
+        g1_old, _ = f.oracle(x1)                # evaluated by the model already: valued
+        g1, f1 = f.oracle(x1 - g1_old)          # a further iterate: new, unvalued leaves
+        x2 = Point()
+        t2 = Expression()
+        objs = {
+            'mixedP': (x0 + x2, ['eval']), 'mixedPrev': (x2 + x0, ['eval']),
+            'mixedE': (f0 - f1, ['eval']), 'mixedErev': (f1 - f0, ['eval']),
+            'mixedProd': ((x0 - x2) ** 2, ['eval']), 'mixedProdRev': ((x2 - x0) ** 2, ['eval']),
+            'mixedGrad': (x0 * g1, ['eval']),
+            'mixedCons': ((f0 >= f1), ['eval', 'eval_dual']), 'mixedConsRev': ((f1 <= f0 + t2), ['eval', 'eval_dual']),
+            'mixedLmi': (PSDMatrix([[f0 - fs, f0 - f1], [f0 - f1, 1.]]), ['eval', 'eval_dual']),
+            'mixedLmiLate': (PSDMatrix([[1., f0 - fs], [f0 - fs, t2]]), ['eval', 'eval_dual']),
+        }
+        if moment == 'extended-then-failed':
+            pep.set_performance_metric(t2)        # a free leaf in the objective: the re-solve is unbounded
+            if env.sym:
+                import cvxpy
+                import mosek
+                for hook in (cvxpy.SOLVER_HOOK[0], mosek.OPTIMIZE_HOOK[0]):
+                    hook.statuses = ('unbounded',)
+            r2 = pep.solve(wrapper=backend, verbose=0)
+            if r2 is not None:
+                return "second solve returned a number"
     if kind == 'classCons':
         f = model['f']
         f.set_class_constraints()
@@ -405,6 +441,10 @@ def cases(tier):
     for kind in KINDS:
         cs.append(dict(id="before-%s" % kind, kind='access', moment='before', objkind=kind, **common))
         cs.append(dict(id="newpep-%s" % kind, kind='access', moment='new-pep', objkind=kind, **common))
+    for kind in MIXED_KINDS:
+        cs.append(dict(id="extended-%s" % kind, kind='access', moment='extended-after-solve', objkind=kind, **common))
+        if tier == 'thorough' or kind in ('mixedE', 'mixedProd', 'mixedCons', 'mixedLmi'):
+            cs.append(dict(id="extended-failed-%s" % kind, kind='access', moment='extended-then-failed', objkind=kind, **common))
     for be in ('cvxpy', 'mosek'):
         cs.append(dict(id="status-%s" % be, kind='status', backend=be, statuses=('optimal',) + BAD, **common))
         if tier == 'thorough':
@@ -438,5 +478,5 @@ def main(tier, only=None):
                      "status cvxpy returns None values, MOSEK returns arbitrary numbers (certificates) from getxx",
                      "int(str) modelled by its contract (raises ValueError or returns an integer, N in {0,1,2})",
                      "the `wrapper` option is exercised with concrete names"],
-        bounds=dict(object_kinds=len(KINDS), moments=3, option_strings="any length (z3 sequence theory)",
+        bounds=dict(object_kinds=len(KINDS) + len(MIXED_KINDS), moments=5, option_strings="any length (z3 sequence theory)",
                     outside="histories of more than two PEPs; accessors after success-then-failure"))
